@@ -365,6 +365,20 @@ func (g *c08Gen) body(depth, nElems int, single bool) []lStmt {
 	return out
 }
 
+// sliceIter hands out its items one by one; a typed nil among them is an item.
+type sliceIter struct {
+	items []interface{}
+	pos   int
+}
+
+func (s *sliceIter) Next() interface{} {
+	if s.pos >= len(s.items) {
+		return nil
+	}
+	s.pos++
+	return s.items[s.pos-1]
+}
+
 type c08Iter struct {
 	name   string
 	expr   string
@@ -406,6 +420,10 @@ func c08Iterables(r *core.Rng) []c08Iter {
 	its = append(its, mk("sum-ending-in-a-call", "ints2 + len(strs3)", []string{"10", "20", "3"}, []string{"10", "20", "3"}))
 	its = append(its, mk("index-by-a-call", "msl2[up(\"k\")]", []string{"a", "b"}, []string{`"a"`, `"b"`}))
 	its = append(its, mk("custom-iterator", "citer", []string{"1", "2", "3"}, []string{"1", "2", "3"}))
+	// an iterator whose elements include a nil slice: an element like any other, not the end
+	tn := mk("custom-iterator-yielding-a-nil-slice", "tniter", []string{"ab", "", "c"}, nil)
+	tn.vals, tn.valSrc = nil, nil
+	its = append(its, tn)
 	its = append(its, mk("nil-literal", "nil", nil, nil))
 	its = append(its, mk("nil-from-missing-key", "msl[\"nokey\"]", nil, nil))
 	its = append(its, mk("nil-slice", "nilslice", nil, nil))
@@ -445,6 +463,7 @@ func c08Ctx() *plush.Context {
 	ctx.Set("arr3", [3]int{1, 2, 3})
 	ctx.Set("pints", &[]int{10, 20})
 	ctx.Set("citer", plush.Iterator(&countIter{max: 3}))
+	ctx.Set("tniter", plush.Iterator(&sliceIter{items: []interface{}{[]string{"a", "b"}, []string(nil), []string{"c"}}}))
 	ctx.Set("msl", map[string][]string{})
 	ctx.Set("msl2", map[string][]string{"K": {"a", "b"}})
 	ctx.Set("up", strings.ToUpper)
